@@ -356,8 +356,8 @@ RAVEL_REF = (
     "    return constructor, len(init)\n")
 
 
-def rule_constructor(prog, rep):
-    rep.rule("C09.transformer", "the transformer of a coupling / masked autoregressive layer is rebuilt per coordinate "
+def rule_constructor(prog, rep, R="C09.transformer"):
+    rep.rule(R, "the transformer of a coupling / masked autoregressive layer is rebuilt per coordinate "
                                 "from its own row of network outputs: params reshaped (dim, -1), the ravelled-pytree "
                                 "constructor vmapped over rows (offset by the initial parameters, frozen leaves static), "
                                 "wrapped in Vmap(in_axes=if_array(0)) and applied to the coordinates", minimum=3)
@@ -365,7 +365,7 @@ def rule_constructor(prog, rep):
     T, FS = ("sym", "TREE"), ("sym", "FILTER_SPEC")
     got = Interp(prog).eval_function("flowjax.utils.get_ravelled_pytree_constructor", [T, FS])
     want = eval_ref_function(prog, m, RAVEL_REF, [T, FS])
-    compare(rep, "C09.transformer", f"{m.relpath}:{fn.lineno}", "get_ravelled_pytree_constructor", got, want, "constructor")
+    compare(rep, R, f"{m.relpath}:{fn.lineno}", "get_ravelled_pytree_constructor", got, want, "constructor")
     for q, dimsrc in (("flowjax.bijections.coupling.Coupling", "self.dim - self.untransformed_dim"),
                       ("flowjax.bijections.masked_autoregressive.MaskedAutoregressive", "self.shape[-1]")):
         c = prog.cls(q)
@@ -375,7 +375,7 @@ def rule_constructor(prog, rep):
         P = ("sym", "PARAMS")
         got = Interp(prog).eval_method(c, "_flat_params_to_transformer", [P])
         want = eval_ref_method(prog, c, ref, [P])
-        compare(rep, "C09.transformer", method_site(prog, c, "_flat_params_to_transformer"),
+        compare(rep, R, method_site(prog, c, "_flat_params_to_transformer"),
                 f"{c.name}._flat_params_to_transformer", got, want, "per-coordinate transformer")
 
 
